@@ -241,6 +241,9 @@ def run(rep, facts, tier):
     from rules.C01 import rule_exclusive_bound
     rule_exclusive_bound(rep, fx, 'R03.6')
 
+    # ------------------------------------------------------------ R03.7
+    rule_03_7(rep, fx)
+
 
 def _unfiltered(t, depth=0):
     """first() is applied to the missing_seqnums result directly (through deref/borrow only)."""
@@ -253,3 +256,94 @@ def _unfiltered(t, depth=0):
     if t[0] == 'call' and t[1].rsplit('::', 1)[-1] in ('deref', 'as_slice', 'as_ref', 'borrow', 'deref_mut') and t[2]:
         return _unfiltered(t[2][0], depth + 1)
     return False
+
+
+def predicate_implies_ack_base_le(fx, body, c):
+    """Does `body` (a bool method of RtpsWriterProxy) return true only if self.ack_base <= c?  Every assignment of something that can be true to the
+    return place must lie behind the True edge of a comparison of self.ack_base with a constant k that implies it (== k, k <= c; <= k, k <= c; < k, k <= c + 1)."""
+    og = Origins(body, summaries=False)
+    P = Pos(body)
+    good = []
+    for s_, t_, cond, lab in switch_edges(body, fx, og):
+        if lab is not True or cond[0] != 'call' or len(cond[2]) != 2:
+            continue
+        name = cond[1].rsplit('::', 1)[-1]
+        a, b_ = cond[2]
+
+        def konst(x):
+            if x[0] == 'const' and x[1] == 'int':
+                return int(x[2])
+            if x[0] == 'call' and x[1].endswith('SequenceNumber::new') and x[2] and x[2][0][0] == 'const':
+                return int(x[2][0][2])
+            return None
+        if a == ('field', 'ack_base', ('param', 1)) and konst(b_) is not None:
+            k = konst(b_)
+            if (name == 'eq' and k <= c) or (name == 'le' and k <= c) or (name == 'lt' and k <= c + 1):
+                good.append((s_, t_))
+    sites = []
+    for bb, si, st in body.statements():
+        if st['s'] == 'assign' and st['lhs']['l'] == 0 and not st['lhs'].get('p'):
+            if not (st['rv']['r'] == 'use' and st['rv']['x'].get('o') == 'const' and st['rv']['x']['k'].get('v') in (0, False)):
+                sites.append((bb, si))
+    for bb, t in body.calls():
+        if t['dest']['l'] == 0 and not t['dest'].get('p'):
+            sites.append((bb, 'term'))
+    return bool(sites) and bool(good) and all(P.every_path_passes(None, s_, via_edges=good, from_entry=True) for s_ in sites)
+
+
+def rule_03_7(rep, fx):
+    rep.rule('R03.7', 'every ACKNACK the reader builds has a base that cannot be below what it sent before: the base is derived from the proxy\'s ack_base (or the first missing number '
+                      'at/above it), or it is a constant c sent only to proxies selected by a predicate that implies ack_base <= c')
+    n = 0
+    for b in fx.bodies:
+        if not b.key.startswith('rtps::reader::'):
+            continue
+        og = None
+        for bb, si, st in b.statements():
+            if not (st['s'] == 'assign' and st['rv']['r'] == 'agg' and strip_generics(str(st['rv'].get('adt'))).endswith('ack_nack::AckNack')):
+                continue
+            n += 1
+            rep.analysed(b)
+            og = og or Origins(b, summaries=True)
+            f = dict(zip(st['rv']['fields'], [og.of_operand(o, bb, si) for o in st['rv']['ops']]))
+            state = f['reader_sn_state']
+            alts = list(state[1]) if state[0] == 'phi' else [state]
+            ok = True
+            why = []
+            for a in alts:
+                base = a[2][0] if a[0] == 'call' and a[2] else a
+                if term_has(base, lambda x: x[0] == 'field' and x[1] == 'ack_base') or term_has(base, lambda x: x[0] == 'call' and x[1].endswith(('missing_seqnums', 'all_ackable_before'))):
+                    continue
+                if base[0] == 'call' and base[1].endswith('SequenceNumber::new') and base[2] and base[2][0][0] == 'const':
+                    c = int(base[2][0][2])
+                elif base[0] == 'const' and base[1] == 'int':
+                    c = int(base[2])
+                else:
+                    ok = False
+                    why.append('base %s is neither derived from ack_base nor a constant' % term_str(base)[:60])
+                    continue
+                # the proxy addressed is drawn from an iterator filtered by a closure that returns a proxy predicate
+                w = f['writer_id']
+                filt = []
+                term_has(w, lambda x: x[0] == 'call' and x[1].endswith('::filter') and len(x[2]) == 2 and filt.append(x))
+                pred_ok = False
+                for fl in filt:
+                    cl = fl[2][1]
+                    if cl[0] != 'agg':
+                        continue
+                    for cbody in fx.closures_of(b):
+                        if cbody.key != norm_path(str(cl[1])):
+                            continue
+                        cog = Origins(cbody, summaries=False)
+                        rets = cbody.return_blocks()
+                        rv = cog.of_local(0, rets[0], 'term') if rets else ('unknown',)
+                        if rv[0] == 'call' and 'RtpsWriterProxy::' in rv[1]:
+                            for pb in fx.by_key.get(norm_path(rv[1]), []):
+                                if predicate_implies_ack_base_le(fx, pb, c):
+                                    pred_ok = True
+                if not pred_ok:
+                    ok = False
+                    why.append('constant base %d is sent to proxies not known to have ack_base <= %d' % (c, c))
+            rep.check(ok, 'R03.7', '%s/acknack#%d/base' % (b.key, n), 'base from ack_base / first missing, or a constant under a predicate implying ack_base <= it',
+                      '%s builds an ACKNACK whose base can be lower than one sent before (%s): the base decreases during a match and acknowledged samples are requested again' % (b.key, '; '.join(why)), b.where(bb, si))
+    rep.floor('R03.7', n, 2, 'constructions of AckNack in rtps::reader')
